@@ -2623,6 +2623,11 @@ fn gen_c02(r: &mut Rng, seed: u64) -> Scenario {
             }
         }
     }
+    // a corrupt (e.g. cyclic) linker list is followed for at most 16384 entries, each with a name of up
+    // to PATH_MAX bytes: word by word through ptrace that is bounded, but by more calls than the default budget
+    if tags.iter().any(|t| t == "h:link-map") {
+        sc.sched.max_calls = 12_000_000;
+    }
     // an unlimited stop timeout is a request to wait for as long as the stop takes: keep it for worlds
     // where the stop does arrive (a zombie leader never shows state T, a late stopper needs its time)
     if let Workload::Dump(p) = &mut sc.workload {
@@ -2637,10 +2642,32 @@ fn gen_c02(r: &mut Rng, seed: u64) -> Scenario {
     sc
 }
 
+/// A dump whose image outgrows the 32-bit offsets of the format: five threads, each running at
+/// the low end of a 1 GiB anonymous mapping (every stack is captured up to the end of its mapping).
+/// No such image can be described; the request has to fail rather than hand out wrapped offsets.
+fn gen_over_4gib(r: &mut Rng, prop: &str, seed: u64) -> Scenario {
+    let n = 5usize;
+    let mut cfg = plain_cfg(n, 0);
+    cfg.nfds = 1;
+    let mut b = build_world(r, &cfg);
+    for ti in 0..n {
+        let start = b.add_anon((1 << 30) + 0x1000, "rw-p", 0, 1);
+        if let Some(g) = b.world.regions.iter_mut().find(|g| g.start == start) {
+            g.content = Content::Zero;
+        }
+        b.world.threads[ti].regs[R_RSP] = start + 0x100 + 8 * r.below(64);
+    }
+    let opts = Opts { blamed: PID, ..Default::default() };
+    let mut sc = simple_dump_scenario(prop, seed, "over-4gib", b, opts);
+    sc.tags = vec!["over-4gib".into()];
+    sc
+}
+
 pub fn generate(prop: &str, verif_seed: u64, idx: u64) -> Scenario {
     let seed = derive_seed(verif_seed, prop, idx);
     let mut r = Rng::new(seed);
     match prop {
+        "C01" if idx == 16 => gen_over_4gib(&mut r, prop, seed),
         "C01" => {
             let benign = idx % 2 == 1;
             let mut sc = rich_dump(&mut r, prop, seed, if benign { "c01-benign-faults" } else { "c01-clean" }, benign).0;
